@@ -1,9 +1,12 @@
 #!/bin/bash
 # Runs every seeded change against the check of the property it breaks (quick tier) and prints
 # one line per change: caught / MISSED / patch no longer applies (the tree moved on).
+# usage: tools/seeded_regress.sh [first-id]   (resume from that id)
 cd "$(dirname "$0")/.."
+from=${1:-}
 for d in seeded/*/; do
   id=$(basename $d)
+  if [ -n "$from" ] && [[ "$id" < "$from" ]]; then continue; fi
   prop=$(python3 -c "import json;print(json.load(open('$d/meta.json'))['breaks_property'])")
   out=$(timeout 900 tools/mutant.sh $d/patch.diff $prop 2>&1); if [ $? -eq 124 ]; then echo "$id $prop TIMEOUT (no verdict within 15 min: a hang; the check itself ends INCONCLUSIVE through its watchdog)"; continue; fi
   if echo "$out" | grep -q "does not apply\|does not compile"; then echo "$id $prop NOT-APPLICABLE ($(echo "$out" | head -1 | cut -c1-80))"; continue; fi
